@@ -158,7 +158,7 @@ func edMul(p *edPoint, f []byte) *edPoint {
 }
 
 func EdPointScalarMult(v interface{}, x interface{}, q interface{}) interface{} {
-	edSet(v, edMul(edGet(q), clone(vFieldBytes(x, 0))))
+	edSet(v, edMul(edGet(q), clone(scBytesOf(x))))
 	return v
 }
 
@@ -168,7 +168,7 @@ func EdPointScalarBaseMult(v interface{}, x interface{}) interface{} {
 	if edBasePoint == nil {
 		edBasePoint = &edPoint{base: vUFN("ed_basepoint", 32)}
 	}
-	edSet(v, edMul(&edPoint{base: edBasePoint.base}, clone(vFieldBytes(x, 0))))
+	edSet(v, edMul(&edPoint{base: edBasePoint.base}, clone(scBytesOf(x))))
 	return v
 }
 
@@ -179,6 +179,6 @@ func EdPointNegate(v interface{}, p interface{}) interface{} {
 }
 
 func EdPointVarTimeDoubleScalarBaseMult(v interface{}, a interface{}, A interface{}, b interface{}) interface{} {
-	edSet(v, &edPoint{base: vUFN("ed_double_mult", 32, vFieldBytes(a, 0), edEncode(edGet(A)), vFieldBytes(b, 0))})
+	edSet(v, &edPoint{base: vUFN("ed_double_mult", 32, scBytesOf(a), edEncode(edGet(A)), scBytesOf(b))})
 	return v
 }
